@@ -67,25 +67,13 @@ CLAIMS['C13'] = dict(
           "record sets are read through the pool's pointers (pointer.load), not through the variant-series conversion."),
     technique="TLA+ format definition + state machine; TLC validation of recorded round trips and file histories", ref='6 C13')
 CLAIMS['C01'] = dict(
-    text=("spec/Variants.tla + Peptides.tla define, with no graph, the set C01 requires: for every compatible haplotype of the "
-          "usable variants, apply it to the transcript, translate from every permitted start to the stop (annotated Sec read as U), "
-          "digest under the case's rule/exception/miscleavage/limits incl. M-removed start peptides, and subtract the digest of the "
-          "unmodified transcript and the canonical pool. CallVariantOracle has TLC compute that set for each generated input and "
-          "compare it with the FASTA the real callVariant wrote (Complete subset of output). Inputs: random references (both "
-          "strands, coding/non-coding, multi-exon, NF tags, Sec, several genes) x 1-5 small variants per transcript incl. dense "
-          "clusters x cleavage settings (all 35 rules in the thorough tier) x collapse knobs, complexity limits off."),
-    note=("Bounded exhaustive per input (all haplotypes) but sampled over inputs; small variants inside one exon; fusion/circRNA/"
-          "alternative-splicing backbones are exercised by C15-C17 and C06/C07 runs, not by this oracle; known findings: cleavage "
-          "patterns that look beyond P1/P1' (pepsin, caspases, trypsin exception, ...) are evaluated per graph node, and "
-          "--naa-to-collapse 1 loses the MRP/WKP context."),
-    technique="TLA+ definitional oracle evaluated by TLC per recorded input; implementation output validated against it", ref='6 C01')
+    text=("spec/Variants.tla + Peptides.tla define, with no graph, the set C01 requires: for every compatible haplotype of the usable variants (adjacent same-class pairs merged as --max-adjacent-as-mnv does; alternative-splicing insertion / deletion / substitution records in the replace-[start,end)-by-alt form that Rmats.tla proves equal to their denotation), apply it to the transcript, translate from every permitted start to the stop (annotated Sec read as U, Sec-terminated forms and W>F images when those flags are on), digest under the case's rule/exception/miscleavage/limits incl. M-removed start peptides, and subtract the digest of the unmodified transcript (incl. its Sec-terminated / W>F forms when switched on) and the canonical pool. CallVariantOracle has TLC compute that set for each generated input and compare it with the FASTA the real callVariant wrote (Complete subset of output). 510 / 13 600 inputs over 17 modes: random references (both strands, coding/non-coding, multi-exon, NF tags, Sec, several genes), 1-5 small variants per transcript incl. dense clusters, adjacent and multi-allelic sites, variants aimed at stop codons (SNV, merged pair, MNV record, indels), alt-translation flags, Gly/Ala-rich proteins with binding mass limits, AS records, 13 / 35 enzymes, collapse knobs; complexity limits off."),
+    note=("Bounded exhaustive per input (all haplotypes) but sampled over inputs; small variants inside one exon; fusion / circRNA backbones are exercised by C15, C17, C05-C07 runs, not by this oracle; variants nested in an inserted AS segment are supported by the spec but off by default (VERIF_NESTED=1) because the tool's output for them is not deterministic run to run; recorded findings: cleavage patterns beyond P1/P1' evaluated per graph node, --naa-to-collapse 1, phantom cleavage sites in AS segments with nested variants."),
+    technique='TLA+ definitional oracle evaluated by TLC per recorded input; implementation output validated against it', ref='12.4')
 CLAIMS['C02'] = dict(
-    text=("Same oracle, other inclusion: every FASTA sequence must lie in Sound (as Complete but also allowing open-ended tail "
-          "fragments). In addition each input is re-run with binding complexity limits (max-variants-per-node 0/1/2, "
-          "additional-variants-per-misc 0/1) and with injected TimeoutErrors that walk caller_reducer's retry ladder (guarded "
-          "hook): the outputs must stay inside the unlimited output, i.e. limits and retries only remove peptides."),
-    note="As C01; retries are provoked by the guarded timeout hook, not by real timeouts.",
-    technique="TLA+ definitional oracle + paired runs under restricted limits", ref='6 C02')
+    text=("Same oracle, other inclusion: every FASTA sequence must lie in Sound (as Complete, but with the permissive adjacency rule, open-ended tail fragments, all nested variants, and W>F images of every product of a variant haplotype). In addition inputs are re-run with binding complexity limits (max-variants-per-node 0/1/2, additional-variants-per-misc 0/1) and with injected TimeoutErrors that walk caller_reducer's retry ladder (guarded hook): the outputs must stay inside the unlimited output, i.e. limits and retries only remove peptides."),
+    note=('As C01; retries are provoked by the guarded timeout hook, not by real timeouts.'),
+    technique='TLA+ definitional oracle + paired runs under restricted limits', ref='12.4')
 CLAIMS['C04'] = dict(
     text=("OutputTrace.tla: for the FASTA and peptide table of every callVariant run of the C01 campaign and the FASTA of "
           "callNovelORF / callAltTranslation runs, TLC checks: no sequence in CanonicalPool(proteome, cfg) computed by the spec "
@@ -180,23 +168,13 @@ CLAIMS['C17'] = dict(
     note="The end tolerance of ciRNA introns is only checked for exact matches (the tool also accepts any block ending before the next exon).",
     technique="TLA+ definitional spec; TLC validation of CLI outputs", ref='6 C17')
 CLAIMS['C03'] = dict(
-    text=("HeaderOracle.tla: for every (peptide, header entry) pair of every FASTA of the C01 campaign (plus indel-rich extra cases) "
-          "TLC checks that the named backbone is a transcript of the input, every named variant id is a record of that transcript, "
-          "and that applying exactly the named variants - no others - gives a translation in which the peptide is a digestion "
-          "product (HapPeptides of Peptides.tla); entry strings must be unique per FASTA. A failing witness that becomes valid by "
-          "adding exactly one unnamed frameshifting variant is reported under the recorded finding."),
-    note=("Linear transcripts with small variants only; fusion / circRNA / SECT / W2F entries are checked for well-formedness by "
-          "C09/C15/C18 but not for the witness property."),
-    technique="TLA+ definitional witness evaluated by TLC per recorded header entry", ref='6 C03')
+    text=('HeaderOracle.tla: for every (peptide, header entry) pair of every FASTA of the C01 campaign plus indel-rich extra inputs (about 1e4 / 3e5 entries) TLC checks that the named backbone is a transcript of the input, every named id is a record of that transcript (or SECT-<gene position> of an annotated Sec, W2F-<k>), and that applying exactly the named variants - no others - gives a translation in which the peptide is a digestion product (for SECT entries: a fragment cut before that Sec; for W2F entries: the image of a product under exactly the named residues); entry strings must be unique per FASTA. Every non-witness is classified by TLC (omitted upstream frameshift / upstream variants, overlapping variants named, unused adjacent partner, other allele, context-blind fragment, dense-cluster residual); only entries TLC proves to be in a recorded class are KNOWN-FINDINGs.'),
+    note=('Linear transcripts with small variants and AS records; fusion / circRNA entries are checked by C15/C17/C18 for well-formedness and fused-sequence membership, not here. The dense-cluster residual class is broad (any mismatch confined to variants that have another input variant within 3 nt); isolated variants and all SECT/W2F entries are never matched by a finding.'),
+    technique='TLA+ definitional witness evaluated and classified by TLC per recorded header entry', ref='12.4')
 CLAIMS['C05'] = dict(
-    text=("MonotoneTrace.tla: paired runs of one input under a stricter and a relaxed setting (miscleavage+1, min-length-1, "
-          "max-length+3, lower min-mw, SECT, W2F, coding-novel-orf, one more variant record, one more GVF file); TLC requires the "
-          "stricter output to be a subset and every added peptide to be attributable (site count above the old limit, length/mass "
-          "outside the old limit, SECT/W2F/ORF label, label naming the added variant); noncanonical-transcripts and "
-          "backsplicing-only runs must be subsets of the unrestricted run. Inputs: the synthetic campaign and the repository's demo "
-          "data with fusion, circRNA and alternative-splicing records."),
-    note="Complexity limits off; spec-level monotonicity of Complete/Sound follows from their definitions (subset of haplotypes / fragments).",
-    technique="TLC validation of paired real runs against a TLA+ attribution rule", ref='6 C05')
+    text=("MonotoneTrace.tla: paired runs of one input under a stricter and a relaxed setting (miscleavage+1, min-length-1, max-length+3, lower min-mw, SECT, W2F, coding-novel-orf, one more variant record - every record in turn for inputs with adjacent / multi-allelic sites and for synthetic donors with two fusions + circRNA + downstream SNVs -, one more GVF file); TLC requires the stricter output to be a subset and every added peptide to be attributable (site count above the old limit, length/mass outside the old limit, SECT/W2F/ORF label, label naming the added variant); noncanonical-transcripts and backsplicing-only runs must be subsets of the unrestricted run. Inputs: the synthetic campaign, synthetic structural inputs, the repository's demo data with all six GVF files."),
+    note=('Complexity limits off; recorded findings: SECT / W2F switches drop peptides that equal Sec-terminated / W>F forms of the unmodified transcript (decided by TLC from Peptides.tla), and added peptides whose labels omit the added upstream variant (decided by HeaderOracle).'),
+    technique='TLC validation of paired real runs against a TLA+ attribution rule', ref='12.4')
 PENDING = "not claimed in this revision: check not built yet (work in progress, see DESIGN.md section 12)"
 NA = {}
 
